@@ -1092,6 +1092,96 @@ func (c *Ctx) ruleRelock(rule string) {
 	if n < 3 {
 		c.R.Unresolved(rule, sprintf("calls of client / server methods made inside critical sections (%d found, at least 3 expected)", n))
 	}
+	// read locks are not re-entrant either: once a writer waits (Close), a second RLock of a goroutine that already
+	// holds one queues behind the writer, which waits for the first - both wait for ever. Obligation, per call made
+	// between an RLock and its RUnlock: nothing the callee runs synchronously takes that RWMutex, for reading or writing.
+	rwOp := func(cc *ssa.CallCommon) (string, string) {
+		switch core.StaticCalleeName(cc) {
+		case "(*sync.RWMutex).RLock":
+			return "rlock", c.M.AddrPath(cc.Args[0])
+		case "(*sync.RWMutex).RUnlock":
+			return "runlock", c.M.AddrPath(cc.Args[0])
+		case "(*sync.RWMutex).Lock":
+			return "lock", c.M.AddrPath(cc.Args[0])
+		}
+		return "", ""
+	}
+	takesRW := map[*ssa.Function]map[string]bool{}
+	for _, fn := range c.M.SortedFuncs(c.scopePkg("atp")) {
+		for _, b := range fn.Blocks {
+			for _, in := range b.Instrs {
+				if call, ok := in.(*ssa.Call); ok {
+					if op, p := rwOp(&call.Call); (op == "rlock" || op == "lock") && strings.Contains(p, ".") {
+						if takesRW[fn] == nil {
+							takesRW[fn] = map[string]bool{}
+						}
+						takesRW[fn][fieldOf(p)] = true
+					}
+				}
+			}
+		}
+	}
+	for _, fn := range c.M.SortedFuncs(c.scopePkg("atp")) {
+		var rlocks []*ssa.Call
+		for _, b := range fn.Blocks {
+			for _, in := range b.Instrs {
+				if call, ok := in.(*ssa.Call); ok {
+					if op, p := rwOp(&call.Call); op == "rlock" && strings.Contains(p, ".") {
+						rlocks = append(rlocks, call)
+					}
+				}
+			}
+		}
+		cnt := 0
+		for _, l := range rlocks {
+			_, lp := rwOp(&l.Call)
+			field := fieldOf(lp)
+			for _, b := range fn.Blocks {
+				for _, in := range b.Instrs {
+					call, ok := in.(*ssa.Call)
+					if !ok || call == l || !instrDominates(l, call) {
+						continue
+					}
+					if op, _ := rwOp(&call.Call); op != "" {
+						continue
+					}
+					// released in between?
+					released := false
+					for _, ub := range fn.Blocks {
+						for _, uin := range ub.Instrs {
+							if u, ok := uin.(*ssa.Call); ok {
+								if op, p := rwOp(&u.Call); op == "runlock" && fieldOf(p) == field && instrDominates(l, u) && instrDominates(u, call) {
+									released = true
+								}
+							}
+						}
+					}
+					if released {
+						continue
+					}
+					for _, callee := range c.M.Callees(&call.Call) {
+						if !c.methodOrClosureOf(callee, ro.clientT) && !c.methodOrClosureOf(callee, ro.serverT) {
+							continue
+						}
+						cnt++
+						k := key(rule, c.M.Key(fn), sprintf("call #%d of %s with %s read-held does not take it again", cnt, callee.Name(), field))
+						clash := ""
+						for g := range c.reachSync(callee) {
+							if takesRW[g][field] {
+								clash = c.M.Key(g)
+							}
+						}
+						if clash == "" {
+							c.R.Ok(rule, k, c.M.InstrPos(call), "call made while a read lock is held", "nothing the callee runs synchronously locks that RWMutex")
+						} else {
+							c.R.Bad(rule, k, c.M.InstrPos(call), "a function that takes the RWMutex is called with its read lock held",
+								"read locks are not re-entrant: once a writer waits for "+field+" (Close), the second RLock in "+clash+" queues behind the writer, which waits for the first read lock to be released - the caller and the writer wait for each other for ever")
+						}
+					}
+				}
+			}
+		}
+	}
 }
 
 // R-STARTGATE (C06 "Close returns ... under every interleaving of Execute calls and Close"): once the peer has been told
